@@ -298,6 +298,10 @@ def run_all(tier, workdir):
     for g in plan["gen"]:
         hists, st = gen_hists(g, tier, workdir)
         sc = make_schedules(hists, g, seed)
+        for idx, x in enumerate(sc):
+            if idx % 3 == 2:
+                # every third behaviour (both offset kinds): texts mix in characters outside the BMP (cfg `wide` of the executor)
+                x["cfg"]["wide"] = True
         st = dict(st)
         st["group"], st["used"] = g, len(sc)
         gstats.append(st)
@@ -310,7 +314,8 @@ def run_all(tier, workdir):
         rs, rt = os.path.join(wd, "rs%d.ndjson" % i), os.path.join(wd, "rt%d.ndjson" % i)
         rsch, ncr = vlib.run_x_random(rs, rt, ["--seed", str(_h(seed, i, "yata") % (1 << 31)),
                     "--ops", str((12, 40, 30)[i % 3]), "--ext", "", "--gc-off", "0",
-                    "--rich", "1" if i % 3 == 2 else "0"],  # every third run: XML trees, formatting marks, embeds, sub-document references
+                    "--rich", "1" if i % 3 == 2 else "0",  # every third run: XML trees, formatting marks, embeds, sub-document references
+                    "--wide", "3"],  # every third behaviour of every run: characters outside the BMP (surrogate pairs) in the texts
                     150 if tier == "quick" else 400)
         xs["crashes"] = xs.get("crashes", 0) + ncr
         nrand += len(rsch)
